@@ -7,7 +7,9 @@ import HbsLms.Props.C06
 import HbsLms.Props.C08
 import HbsLms.Props.C09
 import HbsLms.Props.C10
+import HbsLms.Props.C11
 import HbsLms.Props.C12
 import HbsLms.Props.C13
+import HbsLms.Props.C14
 import HbsLms.Props.C15
 import HbsLms.Props.C16
